@@ -68,7 +68,8 @@ PROPS["C01"] = {
                   "reference store. Corners the README leaves open (int() of non-numeric text, float rendering, overflow, "
                   "non-ASCII case mapping, BETWEEN with lower>=upper) are never generated."
                   " Later widening: one case in six joins a predicate over a list value (IN over split()/list(), len, [n]); IN lists of 33-70 keys; stores up to 130 pairs; one integer store in six holds integers near the int64 limits (the reference abstains on arithmetic beyond 2^40); trailing semicolons."
-                  " Round 6: one numeric comparison in three compares with the value its left side has on one of the stored pairs (on the boundary); one float store in four holds values that are not exactly representable (0.1, 0.3, 0.7).",
+                  " Round 6: one numeric comparison in three compares with the value its left side has on one of the stored pairs (on the boundary); one float store in four holds values that are not exactly representable (0.1, 0.3, 0.7)."
+                  " Round 8: fixed-width decimals with leading zeros (010, 025, 008, 0100) among the stored integers.",
     "rule": "rapid: store kind x size {0..70} x batch size {1,2,3,5,32} x predicate depth 0..4 (comparisons, ^=, ~=, IN, BETWEEN, "
             "& | and or !, arithmetic, int/float/str/upper/lower/strlen/is_int/is_float/join/len(split)), literal on either side, "
             "`select * where P` and bare `where P`. Non-trivial = at least one stored pair satisfies P and at least one does not; "
@@ -97,7 +98,8 @@ PROPS["C02"] = {
     "level_note": "Trusted: reference evaluator, region extraction from exported fields (MultiGetPlan.Keys, PrefixScanPlan.Prefix, "
                   "RangeScanPlan.Start/End, RemovePlan.Keys). The key universe (all keys of length <= maxLiteral+1 over {` a b c}) is checked by "
                   "TestC02Universe to realise every order/prefix relationship a random byte-string key can have to the literals."
-                  " Later widening: IN lists whose elements are computed ('a' + '', lower('A')) next to literal ones.",
+                  " Later widening: IN lists whose elements are computed ('a' + '', lower('A')) next to literal ones."
+                  " Round 8: the second store of the key universe holds EMPTY values (a stored pair with an empty value is a pair like any other); the opaque atoms are evaluated on 'x' and on the empty value.",
     "rule": "enumerated predicate trees (each emitted once) + rapid-sampled deep trees; both SELECT and DELETE forms. "
             "Non-trivial = the planner chose a region narrower than FULL and at least one key of the universe satisfies the predicate; "
             "distinct = distinct statements.",
@@ -154,7 +156,8 @@ PROPS["C05"] = {
     "level_note": "Trusted: reference evaluator and RefSelect (lib/refselect.go). A bare name as a whole select field or whole WHERE is not "
                   "generated (not a use the property lists); duplicate alias names are not generated. ORDER BY ties are compared as multisets."
                   " Later widening: a field that is only a name (n as m) and repeated names (a later field reusing an earlier name of the same type) ARE generated now; names that need back quotes (blank, dash, capitals); aggregate fields built on the names of earlier aggregate or group fields. Leg TestC05NameKeyCollide draws names and keys from fragments with '-', ':' and digits; leg TestC05DynamicCache runs templates over JSON members in runs of one kind and only compares cache on against cache off within one mode (the reference has no semantics for JSON)."
-                  " Round 5: chains of fields that are only names (n as z1, z1 as z2, ..), each inserted at a random place of the select list, in front of or behind the field it names.",
+                  " Round 5: chains of fields that are only names (n as z1, z1 as z2, ..), each inserted at a random place of the select list, in front of or behind the field it names."
+                  " Round 8: one aliased field in twelve takes the upper-case variant of an earlier name (t1 and `T1` are two names).",
     "rule": "rapid: store kind x size x batch size x 1-4 select fields (typed expressions, 75% named) x WHERE depth 0-3 with 35% alias bias; "
             "one in four statements is an aggregate grouped by named fields; one in three has ORDER BY. "
             "Non-trivial = a name is used in WHERE and, in key order, a pair the filter rejects precedes a pair it accepts "
@@ -212,7 +215,8 @@ PROPS["C04"] = {
                   " Later widening: floats that are not exactly representable (0.1, 0.2) and constant conversion calls (float(3), float('2'), int('7')) among the leaves. Pairs on which the reference reports a magnitude error (the original only evaluates by wrapping around int64) are skipped and counted."
                   " Round 5: leg TestC04AggrFields - a constant Boolean combined (& | and or, either side, bare or inside str()) with an operand that holds an aggregate function, also under !: the statement must return the same rows as the same statement with the constant written as a predicate of the pair that cannot be folded (strlen(key) >= 0 / < 0), i.e. the statement without the rewrite."
                   " Round 6: every arithmetic shape is also placed in `e = v`, `e >= v`, `e <= v` with v the value of e on one of the pairs (a rewrite that moves e by one unit in the last place below a Boolean root changes the rows); the pairs hold 0.1, 0.3, 0.7 and 2.675."
-                  " Round 7: every arithmetic shape is also run under a name (`e as c1, c1 as c2, c1 + 0 as c3`): the field, a field that is only its name and a field that uses the name must all show the value of e as written.",
+                  " Round 7: every arithmetic shape is also run under a name (`e as c1, c1 as c2, c1 + 0 as c3`): the field, a field that is only its name and a field that uses the name must all show the value of e as written."
+                  " Round 8: the text chains also hold numbers (key + 1 + 2): refused by the checker today and counted as rejected; the comparison original / rewritten is made for whatever a tree accepts.",
     "rule": "enumerated expressions placed as select field or inside a WHERE comparison (each emitted once) + rapid typed trees depth 1-4. "
             "Non-trivial = the rewrite changed the rendered expression (String() differs) and the original evaluates on at least one pair; "
             "distinct = distinct statements.",
@@ -241,7 +245,8 @@ PROPS["C15"] = {
     "level_note": "Trusted: the documented precedence table as encoded in lib/render.go (DocPrec) and the s-expression walkers. Literals are free of "
                   "quote characters (the language has no escape syntax). Only pre-optimisation trees are round-tripped."
                   " Later widening: names that need back quotes in generated statements; leg TestC15Names: back-quoted names that are not select fields (capitals, blanks, operator characters, keywords, numbers) as arguments, list items and operands - the printed filter must parse to the same tree and select the same rows."
-                  " Round 5: TestC15Names also enumerates every back-quoted name of up to 2 (thorough: 3) characters over 25 characters that matter to the lexer (comma, semicolon, brackets, quotes, operators, blank, tab).",
+                  " Round 5: TestC15Names also enumerates every back-quoted name of up to 2 (thorough: 3) characters over 25 characters that matter to the lexer (comma, semicolon, brackets, quotes, operators, blank, tab)."
+                  " Round 8: one numeric BETWEEN in four has computed bounds, the lower one starting with a parenthesised sum ((a + b) * 1).",
     "rule": "enumerated operator sequences (each emitted once; typeable ones are cases) + rapid trees depth 1-5 x 4 parenthesis styles x random case, "
             "as WHERE or as select field. Non-trivial = the expression has at least two binary operators (precedence or associativity is exercised); "
             "distinct = distinct query texts.",
@@ -274,7 +279,8 @@ PROPS["C06"] = {
     "level_note": "The poll cap (4*pairs + len(query) + 64 polls) is deterministic, no wall clock is used as a correctness signal. "
                   "Native fuzzing cannot be pinned to a seed; its saved failing input is the reproducible unit. Cache-off exponential alias fan-out is not explored."
                   " Later widening: every query text also goes through BuildExecutor; quantile percents outside [0, 1] written as constant expressions; leg TestC06Chains plans and runs chains of up to 40 named fields that each use the previous name twice (also as parameter of quantile / group_concat) under a 20 s deadline per statement - the one place where wall-clock time decides, four orders of magnitude above the linear cost."
-                  " Round 5: leg TestC06NameGraph - select lists over a pool of three names in which fields name themselves, each other and repeat names (the first definition counts), the names also used in WHERE / ORDER BY / GROUP BY: a definition cycle that slips through the check overflows the stack.",
+                  " Round 5: leg TestC06NameGraph - select lists over a pool of three names in which fields name themselves, each other and repeat names (the first definition counts), the names also used in WHERE / ORDER BY / GROUP BY: a definition cycle that slips through the check overflows the stack."
+                  " Round 8: leg TestC06Arity calls every function and aggregate (and an unknown one) with 0 to 4 arguments of several kinds, as a field, grouped, inside WHERE and as a group column, over all pairs of the hostile stores.",
     "rule": "rapid legs Grammar/Corrupt + deterministic legs Long/Seeds (+ native fuzz executions in the thorough tier, counted as evaluations only). "
             "Non-trivial = the statement reached execution (plan built and at least one storage read) or it was rejected with a positional error; "
             "distinct = distinct (query text, store size).",
@@ -312,7 +318,8 @@ PROPS["C14"] = {
                   "property says. The acceptance leg only asserts acceptance for the sub-language of DESIGN.md §2.2."
                   " Later widening: leg TestC14Matrix runs every operator over every pair of operand forms of every static type (15 forms, as select field, as WHERE and as a field beside count(1) .. group by key): whatever the verdict, it must come at plan build - rejected with zero storage calls, or accepted and never failing with an operand-type error; raw-text forms for shapes the AST cannot express (faults in a second subscript, key in a put key, aggregates in aggregate arguments / GROUP BY / WHERE) and for shapes that must be accepted (Boolean literals under and/or, ! under comparisons, a Boolean name as the whole WHERE); half of the mutant hosts use the wider language (JSON cascades)."
                   " Round 5: a JSON-typed operand form (json('{..}')) joins the matrix (16 forms)."
-                  " Round 6: leg TestC14Forms draws, as text, families of faults the AST cannot express - a fault in the 2nd..4th subscript of a cascade (also on a named JSON field), an aggregate inside the argument of an aggregate (directly, below scalar calls, through a chain of names, the name also used outside the aggregate), an aggregate reached through GROUP BY or standing in WHERE / DELETE / PUT / REMOVE, a subscript behind a list element, a list or JSON field beside an aggregate. Every form comes with its control, the same text with the fault taken out: the form must be refused with zero storage calls AND the control must be accepted (a refused control is a violation of the converse sentence, and shows a form that would be refused for the wrong reason).",
+                  " Round 6: leg TestC14Forms draws, as text, families of faults the AST cannot express - a fault in the 2nd..4th subscript of a cascade (also on a named JSON field), an aggregate inside the argument of an aggregate (directly, below scalar calls, through a chain of names, the name also used outside the aggregate), an aggregate reached through GROUP BY or standing in WHERE / DELETE / PUT / REMOVE, a subscript behind a list element, a list or JSON field beside an aggregate. Every form comes with its control, the same text with the fault taken out: the form must be refused with zero storage calls AND the control must be accepted (a refused control is a violation of the converse sentence, and shows a form that would be refused for the wrong reason)."
+                  " Round 8: an element of a list of texts (split(value, ',')[0]) joins the operand forms of the matrix (17 forms).",
     "rule": "deterministic fault x position grid (each cell once) + rapid mutants + rapid well-typed statements. Non-trivial = a mutant whose fault is "
             "not at the root of WHERE / a select field / a PUT or REMOVE operand, a grid cell, or a well-typed statement with at least two operators; "
             "distinct = distinct statements.",
@@ -417,7 +424,8 @@ PROPS["C09"] = {
                   "Every non-aggregate select field is one of the GROUP BY expressions."
                   " Later widening: the reference reads numeric text and defines sum/avg/min/max of groups that mix integers and floats (min/max: by value, either kind accepted); float-valued and Boolean group columns; Boolean aggregate fields with a constant side; group values and scalar calls around aggregates (strlen(key) + count(1), str(count(1))); leg TestC09DynamicGroups groups by a JSON member that is a number, a text, a Boolean or null and compares group membership with equality of (kind, value)."
                   " Round 5: the Boolean aggregate field may sit under a !."
-                  " Round 6: whole numbers beyond 2^53 and 2^63 (1e19, 2e19, -4e19) among the JSON numbers of TestC09DynamicGroups.",
+                  " Round 6: whole numbers beyond 2^53 and 2^63 (1e19, 2e19, -4e19) among the JSON numbers of TestC09DynamicGroups."
+                  " Round 8: aggregates take the raw integer text over integer stores (one case in four), among them fixed-width decimals with leading zeros.",
     "rule": "rapid legs TestC09 (general) and TestC09Collide. Non-trivial = at least 2 groups and (a group with at least 2 pairs, or two distinct group "
             "tuples with equal concatenation); distinct = distinct (query, store, batch size).",
     "assumptions": COMMON_ASSUMPTIONS,
